@@ -399,7 +399,7 @@ PROPS["C10"] = dict(
 PROPS["C11"] = dict(
     harness="p_macro",
     phases=dict(quick=[dict(kind="enum", shards=4, flavour="fast"), rc(6, 200), rc(8, 700, flavour="fast", seed_offset=100)],
-                thorough=[dict(kind="enum", shards=4, flavour="fast"), rc(8, 6000), rc(8, 50000, flavour="fast", seed_offset=100)]),
+                thorough=[dict(kind="enum", shards=4, flavour="fast"), rc(8, 4000), rc(8, 25000, flavour="fast", seed_offset=100)]),
     rule=("cases: macro sets biased to self-reproducing / mutually recursive / growing bodies, budgets 1..64 directly on apply_macros, and the "
           "fixed 1024 through compile() for divergent sets whose stream does not grow; plus six fixed divergent non-growing sets (identity "
           "rewrites whose every intermediate stream is a valid program, mutual recursion, a runaway macro below a terminating one) at two "
